@@ -119,6 +119,21 @@ def coupled_config():
             alpha=S.fl(-6.0, 8.0, 3.0),
             v=S.fl(20.0, 70.0, 50.0),
             point=st.lists(S.fl(-20.0, 20.0, 0.0), min_size=3, max_size=3),
+            compressible=st.booleans(),
+            Mach=S.fl(0.1, 0.85, 0.2, 0.8),
+        )
+    )
+
+
+def export_config():
+    """aero-only analysis points (1-2 surfaces, incompressible or compressible, sideslip): the exported mesh-node forces
+    must carry the same resultant as the sectional forces of the same analysis"""
+    return st.fixed_dictionaries(
+        dict(
+            surfaces=S.aero_config(max_surf=2, nx=(2, 4), nyh=(2, 4), max_panels=30),
+            flow=S.flow(beta=True, rot=False, mach=(0.05, 0.9)),
+            compressible=st.booleans(),
+            point=st.lists(S.fl(-20.0, 20.0, 0.0), min_size=3, max_size=3),
         )
     )
 
@@ -367,7 +382,10 @@ def verdict_coupled(desc):
     mesh0 = build_mesh(md)
     # stiff material: the generator must stay inside the convergent couplings (DESIGN section 2)
     surf = make_surface("wing", mesh0, md["kind"], sp, E=3.0e11, G=1.2e11)
-    prob = aerostruct_problem([surf], flow=dict(alpha=desc["alpha"], v=desc["v"], Mach=0.2, rho=1.0))
+    prob = aerostruct_problem([surf], flow=dict(alpha=desc["alpha"], v=desc["v"], Mach=desc.get("Mach", 0.2), rho=1.0),
+                              compressible=bool(desc.get("compressible", False)))
+    if desc.get("compressible"):
+        out.label("compressible")
     from oasv.models import run_coupled
 
     run_coupled(prob)
@@ -396,6 +414,34 @@ def verdict_coupled(desc):
     return out
 
 
+def verdict_export(desc):
+    from oasv.layouts import place_surfaces, symmetry_of
+    from oasv.models import aero_direct, aero_surface
+
+    out = Outcome()
+    fl = dict(desc["flow"])
+    syms = [symmetry_of(sd["mesh"]) for sd in desc["surfaces"]]
+    if any(syms):
+        fl["beta"] = 0.0
+    meshes = place_surfaces(desc["surfaces"], fl["alpha"])
+    surfaces = [aero_surface("s%d" % k, m, syms[k]) for k, m in enumerate(meshes)]
+    prob = aero_direct(surfaces, fl, compressible=desc["compressible"])
+    prob.run_model()
+    p = np.array(desc["point"], float)
+    tot = 0.0
+    for k, m in enumerate(meshes):
+        F = prob.get_val("aero_point_0.aero_states.s%d_sec_forces" % k).copy()
+        mpf = prob.get_val("aero_point_0.aero_states.s%d_mesh_point_forces" % k).copy()
+        sumf, _ = check_conservation(out, "export/", m, F, p, 0.35, mpf=mpf)
+        tot += sumf
+    out.label("nsurf=%d" % len(meshes))
+    out.label("compressible" if desc["compressible"] else "incompressible")
+    if fl.get("beta", 0.0) != 0:
+        out.label("sideslip")
+    out.nontrivial = bool(tot > 0.0)
+    return out
+
+
 MESH_DEF = dict(kind="left", nx=2, nyh=2, span_blend=0.0, chord_blend=0.0, root_twist=0.0, root_x=0.0, root_y=0.0, root_z=0.0,
                 noise_amp=0.0, noise_seed=0,
                 side=dict(b=5.0, chord=1.0, sweep=0.0, taper=1.0, dihedral=0.0, twist=0.0, camber=0.0, winglet=0.0,
@@ -409,6 +455,7 @@ SUBS = [
     Sub("rigid_motion", motion_config(), verdict_motion, quick=1280, thorough=32000,
         defaults=dict(mesh=MESH_DEF, spar=SPAR_DEF,
                       motion=dict(t_mode="uniform", t=[0.0, 0.0, 0.0], t_seed=0, r_mode="uniform", theta=[0.0, 0.0, 0.0], r_seed=0))),
+    Sub("aero_point_export", export_config(), verdict_export, quick=320, thorough=8000),
     Sub("coupled_point", coupled_config(), verdict_coupled, quick=96, thorough=2400, max_shards=8,
         defaults=dict(mesh=MESH_DEF, spar=SPAR_DEF, alpha=3.0, v=50.0, point=[0.0, 0.0, 0.0])),
 ]
